@@ -101,11 +101,15 @@ PROPS = {
     ),
     "C03": dict(
         level="exploration",
-        modules=["specs.patching"],
+        modules=["specs.patching", "specs.basediff"],
         bounded=[("bounded.c03", "run")],
         assumes=["A2", "A3", "A5", "A9"],
-        trusted=["base_diff / call_diff_logic / apply_diff_rb / make_diff (op assignment, index merge) are not under a discharged contract: "
-                 "bounded only; strip_unchanged and mark_unchanged are proved",
+        trusted=["base_diff / default_diff / ordered_diff are proved against their spec (REMOVED rows of old absent from new at their old "
+                 "index, rows of new ADDED / MOVED / parent's op by the index rule, merged by the index sort) for levels without an "
+                 "%ignore_case rule, with lemmas: removed only if absent from new, added iff absent from old, nothing removed when all "
+                 "rows stay; the list.sort() of (index, item) pairs is an opaque permutation (A3); call_diff_logic (dispatch on function "
+                 "values stored in the rulebook), apply_diff_rb, make_diff, rewrite_diff and the %ignore_case branch are bounded only; "
+                 "strip_unchanged and mark_unchanged are proved",
                  "text renderings (formatter.diff, gen_pre_as_diff) are bounded only"],
     ),
     "C04": dict(
